@@ -94,7 +94,7 @@ func genCase(t *rapid.T) Case {
 	n := rapid.IntRange(2, 20).Draw(t, "nops")
 	dests := append(append([]string{"stdout", "stdout"}, files...), cmds...)
 	for i := 0; i < n; i++ {
-		k := rapid.SampledFrom([]string{"out", "out", "out", "out", "close", "close", "fflush", "fflushall", "system-echo", "system-exit", "system-size"}).Draw(t, "kind")
+		k := rapid.SampledFrom([]string{"out", "out", "out", "out", "close", "close", "fflush", "fflushall", "system-echo", "system-exit", "system-size", "pipe-exit3"}).Draw(t, "kind")
 		op := Op{Kind: k}
 		switch k {
 		case "out":
@@ -249,6 +249,11 @@ func build(c Case) *model {
 			fmt.Fprintf(&body, "  r = system(\"echo S%d\"); print \"R%d system \" r\n", k, k)
 			m.sysLines[k] = fmt.Sprintf("S%d", k)
 			emitOwn(k, fmt.Sprintf("R%d system 0", k))
+		case "pipe-exit3":
+			// a command that exits with status 3 without reading its input: by the time close() flushes, the pipe is broken;
+			// close() still has to report the command's exit status (the failed flush is reported on stderr)
+			fmt.Fprintf(&body, "  print \"L%d-lost\" | \"exit 3 # %d\"; system(\"sleep 0.05\"); r = close(\"exit 3 # %d\"); print \"R%d close \" r\n", k, k, k, k)
+			emitOwn(k, fmt.Sprintf("R%d close 3", k))
 		case "system-exit":
 			fmt.Fprintf(&body, "  r = system(\"exit 3\"); print \"R%d system \" r\n", k)
 			emitOwn(k, fmt.Sprintf("R%d system 3", k))
